@@ -198,6 +198,24 @@ func scenarioC04(c *hlib.RunCtx) *hlib.Violation {
 			threads = append(threads, thread{p, ops})
 		}
 	}
+	// Sometimes another program opens a counter file of the same name (same
+	// base name, version and day, other import path) once the file exists: it is
+	// refused and the file is none of its business.
+	var foreign *proc
+	if t.Bool(1, 6) {
+		save := w.bi
+		fb := *buildInfo
+		if save != nil {
+			fb = *save
+		}
+		fb.Path = "fork.example.org/" + fb.Path[strings.Index(fb.Path, "/")+1:]
+		w.bi = &fb
+		foreign = w.newProc("foreign")
+		foreign.foreign = true
+		w.bi = save
+		s.Probe("foreign-opener")
+	}
+	foreignStarted := false
 	kills := drawKills(t, nprocs, 3, 600)
 	chooseStrategy(c, s, 600)
 	var desc []string
@@ -220,6 +238,15 @@ func scenarioC04(c *hlib.RunCtx) *hlib.Violation {
 		w.checkValuesBounded()
 		w.stateHash()
 		w.applyKills(kills, tk, tk.LastLabel)
+		if foreign != nil && !foreignStarted {
+			for _, v := range w.views {
+				if v.dec != nil {
+					foreignStarted = true
+					s.Spawn(foreign.p, "foreign-open", func() { enterAdd(); foreign.f.VerifRotate1(); leaveAdd() })
+					break
+				}
+			}
+		}
 	}
 	opened := map[*proc]bool{}
 	for i, th := range threads {
@@ -288,6 +315,13 @@ func (w *world) checkSurvivors() {
 	}
 	for _, p := range w.procs {
 		if p.p.Dead() {
+			continue
+		}
+		if p.foreign {
+			if p.fileOpen() {
+				w.fail("foreign-opened", "a program with other build metadata opened the counter file of this one")
+				return
+			}
 			continue
 		}
 		if err := p.f.VerifErr(); err != nil {
